@@ -5,7 +5,7 @@ REDIR = {
     "github.com/sourcenetwork/defradb/internal/core/block.GetFromBytes": "vGetFromBytes",
     "(*github.com/sourcenetwork/defradb/internal/core/block.Block).GenerateLink": "vGenerateLink",
 }
-LINEAR = {"linear-4": "-|0|1|2", "linear-3": "-|0|1"}
+LINEAR = {"linear-4": "-|0|1|2", "linear-3": "-|0|1", "diamond": "-|0|0|1,2", "diamond-tail": "-|0|0|1,2|3", "two-chains-merge": "-|0|1|0|3|2,4"}
 
 
 def jobs(tier):
@@ -26,7 +26,7 @@ PROPERTY = {
     "id": "C03",
     "suites": [{"name": "versioned", "pkg": "internal/db/fetcher", "files": ["zz_verif_c03.go"], "common": ["intrinsics", "kvmodel", "dagenv"],
                 "jobs": jobs, "overrides": OVR, "redirects": REDIR, "unwind": 40, "witnesses": {"quick": 12, "thorough": 32}}],
-    "bounds": {"commits": "linear histories of 3 and 4 commits; every DAG of 3 (thorough 4) commits with <=2 parents", "target": "every commit", "fields": "one counter or one register field written by every commit"},
+    "bounds": {"commits": "linear histories of 3 and 4 commits, a diamond, a diamond with a tail, two chains joined by a merge commit; every DAG of 3 (thorough 4) commits with <=2 parents", "target": "every commit", "fields": "one counter or one register field written by every commit"},
     "assumptions": _c02.PROPERTY["assumptions"],
     "outside_claim": ["subscriptions", "planner wiring (scanNode), ACP on this path, encrypted history", "the document fetcher that reads the transient store afterwards"],
 }
